@@ -295,7 +295,7 @@ func peBase(name string) (*testImage, []byte) {
 	if name == "signed32" {
 		l = peLayout{bits: 32, lfanew: 128, secs: []peSec{{32, 1}, {16, 2}}, slack: 0, gappos: 1, trail: 0}
 	}
-	if name == "manysigs64" {
+	if name == "manysigs64" || name == "manysigsA64" {
 		// image content about as large as its certificate table of forty signatures
 		l = peLayout{bits: 64, lfanew: 64, secs: []peSec{{30000, 2}, {24000, 1}}, slack: 8, gappos: 1, trail: 5}
 	}
@@ -313,11 +313,16 @@ func peBase(name string) (*testImage, []byte) {
 		return ti, append([]byte{}, ti.unsigned...)
 	case "twosigs64":
 		return ti, attachSignatures(ti, blob("k1", "A"), blob("k2", "B"))
-	case "manysigs64":
-		// forty well-formed signatures by somebody else: verifying against A has to look at every one of them
+	case "manysigs64", "manysigsA64":
+		// forty well-formed signatures by somebody else: verifying against A has to look at every one of them; in the second variant
+		// they all NAME A's certificate (issuer and serial are public) without being A's signatures
 		var bs [][]byte
 		for k := 0; k < 40; k++ {
-			bs = append(bs, blob("k2", "B"))
+			if name == "manysigsA64" {
+				bs = append(bs, blob("k2", "A"))
+			} else {
+				bs = append(bs, blob("k2", "B"))
+			}
 		}
 		return ti, attachSignatures(ti, bs...)
 	}
